@@ -91,6 +91,24 @@ def translate(path, fname, coq_name):
     return f"Definition {coq_name} {args} : res pv :=\n  {text}.\n"
 
 
+def translate_assigned_expr(path, fname, target, coq_name, params):
+    """the expression assigned to `target` (exactly one such assignment) inside function `fname`, as a function of `params`"""
+    mod = ast.parse((core.REPO / path).read_text())
+    fns = [n for n in ast.walk(mod) if isinstance(n, ast.FunctionDef) and n.name == fname]
+    if len(fns) != 1:
+        raise FunError(f"function {fname} not found exactly once in {path}")
+    assigns = [n for n in ast.walk(fns[0]) if isinstance(n, ast.Assign) and len(n.targets) == 1 and isinstance(n.targets[0], ast.Name)
+               and n.targets[0].id == target]
+    if len(assigns) != 1:
+        raise FunError(f"assignment to {target} not found exactly once in {fname}")
+    free = {n.id for n in ast.walk(assigns[0].value) if isinstance(n, ast.Name)} - {"len", "int"}
+    if not free <= set(params):
+        raise FunError(f"expression for {target} uses names outside {params}: {sorted(free - set(params))}")
+    text = Tr().expr(assigns[0].value, lambda v: f"Ok {v}")
+    args = " ".join(f"({p} : pv)" for p in params)
+    return f"Definition {coq_name} {args} : res pv :=\n  {text}.\n"
+
+
 HEADER = ("(* GENERATED by harness/gen_fun.py from /repo's current source on every run — do not edit *)\n"
           "From Coq Require Import ZArith List Bool.\nFrom SPP Require Import Base.Bytes Base.Sx Base.PyEval.\nImport ListNotations.\nOpen Scope Z_scope.\n\n")
 
@@ -101,7 +119,7 @@ def check(tag, items, ok_file):
     gen = core.COQ / "Gen"
     gen.mkdir(exist_ok=True)
     try:
-        txt = HEADER + "\n".join(translate(*it) for it in items)
+        txt = HEADER + "\n".join((translate_assigned_expr(*it[1:]) if it[0] == "expr" else translate(*it)) for it in items)
     except FunError as e:
         return False, f"translation failed (source outside the translated fragment): {e}"
     except Exception as e:  # noqa: BLE001
